@@ -244,7 +244,11 @@ def run_case(case, ctx, sdir):
         if inp == "stringio":
             if fmt != "XML":
                 return
-            sio = io.StringIO(text.split("?>", 1)[1] if text.startswith("<?xml") else text)
+            # every other text stream holds the file as it is, XML declaration included; the others only the root element
+            keep_decl = core_int(case) % 2 == 0
+            rec.count("stringio-declaration", "kept" if keep_decl else "cut")
+            sio_text = text if keep_decl or not text.startswith("<?xml") else text.split("?>", 1)[1]
+            sio = io.StringIO(sio_text)
             pos = [0, "end", 7][core_int(case) % 3]
             sio.seek(0, 2) if pos == "end" else sio.seek(pos)      # (as after write() / after a peek at the first line)
             rec.count("stringio-position", str(pos))
@@ -265,7 +269,7 @@ def run_case(case, ctx, sdir):
         rec.monitor("source")
         if hashlib.sha256(open(src, "rb").read()).hexdigest() != digest:
             rec.violation("source/file-modified", fmt, case)
-        if sio is not None and sio.getvalue() != (text.split("?>", 1)[1] if text.startswith("<?xml") else text):
+        if sio is not None and sio.getvalue() != sio_text:
             rec.violation("source/stringio-modified", fmt, case)
         if any(e[0] != "open-read" and src in e[1:] for e in fs.events):
             rec.violation("source/opened-for-writing", repr([e for e in fs.events if src in e[1:]][:2]), case)
